@@ -3,12 +3,23 @@
 // Model-based runtime monitor over the real account.ClientImpl: seeded histories of
 // NewAccount / ImportAccount / DeleteAccount / SetDefaultAccount / SetLabel /
 // ChangePassword / ChangeSigScheme on a wallet file; after every op the live client is
-// compared with the model (no decryption), after every k-th op and at the end a FRESH
+// compared with the model (no decryption; a label no account carries must resolve to
+// nothing, in the live and in the reloaded client), after every k-th op and at the end a FRESH
 // client is opened on the saved file and compared with the model and with the live
 // client, every account (intermediate reloads: one seeded account) is decrypted with its
 // current password (key must equal the model's key) and must refuse other passwords
 // (former passwords of the account, passwords of other accounts, random ones).  Failed ops
 // must leave the file unchanged.
+//
+// Fault injection on the save path (no hooks): WalletData.Save writes "<wallet>~" and renames
+// it over "<wallet>" (or, when "<wallet>" does not exist yet, writes "<wallet>" directly).
+// With seeded probability an op runs while that path is obstructed — a directory at
+// "<wallet>~" (open fails), a symlink "<wallet>~" -> /dev/full (write fails with ENOSPC), or,
+// before the first save, a directory at "<wallet>" (rename fails) — so its save returns an
+// error.  An op that returned an error under the obstruction must leave the live wallet as
+// it was (listing, labels, default, ciphertext; the touched account opens with its current
+// password and not with the password of the failed change), and the same must hold for a
+// fresh client opened on the file after the next successful save.
 package main
 
 import (
@@ -18,6 +29,7 @@ import (
 	"os"
 	"path/filepath"
 	"sort"
+	"strings"
 	"sync"
 
 	"github.com/ontio/ontology-crypto/keypair"
@@ -48,6 +60,7 @@ type opRec struct {
 	Op     string `json:"op"`
 	Args   string `json:"args"`
 	Result string `json:"result"`
+	Fault  string `json:"save_obstructed_by,omitempty"`
 }
 
 type viol struct {
@@ -113,10 +126,11 @@ func genPwd(rng *vf.RNG) []byte {
 	return b
 }
 
+// small alphabet => duplicates, "x_1" collisions with the import rename rule, and the empty label
+var labelBase = []string{"", "a", "b", "c", "a_1", "b_1", "main", "main_1", "账户", "a b"}
+
 func genLabel(rng *vf.RNG) string {
-	// small alphabet => duplicates, "x_1" collisions with the import rename rule, and the empty label
-	base := []string{"", "a", "b", "c", "a_1", "b_1", "main", "main_1", "账户", "a b"}
-	return base[rng.Intn(len(base))]
+	return labelBase[rng.Intn(len(labelBase))]
 }
 
 type hist struct {
@@ -132,6 +146,12 @@ type hist struct {
 	donors []*donor
 	full   bool // thorough: complete wrong-password set
 	count  func(string)
+
+	// save-path fault injection
+	frng    *vf.RNG // separate stream: the op stream of a history does not depend on the fault decisions
+	fault   string  // obstruction in force during the current op ("" = none)
+	snap    *snap   // live wallet right before the obstructed op
+	pending []pend  // ops that failed under an obstruction since the last successful save
 }
 
 func (h *hist) find(addr string) int {
@@ -203,6 +223,17 @@ func (h *hist) compareMeta(c *account.ClientImpl, who string) *viol {
 			ml := c.GetAccountMetadataByLabel(a.Label)
 			if ml == nil || ml.Address != a.Addr {
 				return &viol{who + ":lookup-by-label", fmt.Sprintf("GetAccountMetadataByLabel(%q) does not return account %s", a.Label, a.Addr)}
+			}
+		}
+	}
+	// a label that no account carries resolves to nothing (the generator's labels and their import renames)
+	for _, l := range labelBase {
+		for _, x := range []string{l, l + "_1"} {
+			if x == "" || h.labelTaken(x) {
+				continue
+			}
+			if m := c.GetAccountMetadataByLabel(x); m != nil {
+				return &viol{who + ":lookup-by-label-stale", fmt.Sprintf("GetAccountMetadataByLabel(%q) returns account %s (label %q) although no account of the wallet carries that label", x, m.Address, m.Label)}
 			}
 		}
 	}
@@ -346,6 +377,290 @@ func fileExists(p string) bool { _, err := os.Stat(p); return err == nil }
 
 func readFile(p string) []byte { b, _ := os.ReadFile(p); return b }
 
+// ---------------------------------------------------------------- save-path fault injection
+
+const (
+	faultTmpDir  = "tmp-is-directory"   // "<wallet>~" is a directory: WriteFile cannot open it
+	faultTmpFull = "tmp-on-full-device" // "<wallet>~" is a symlink to /dev/full: the write fails with ENOSPC
+	faultPathDir = "path-is-directory"  // no wallet file yet and "<wallet>" is a directory: the rename fails
+)
+
+var devFullOK bool // set by probeObstructions
+
+// obstructAt makes every WalletData.Save(path) fail until clearObstruction; returns the mode ("" = could not obstruct).
+func obstructAt(path string, preferFull bool) string {
+	tmp := path + "~"
+	if !fileExists(path) {
+		if os.Mkdir(path, 0o755) != nil {
+			return ""
+		}
+		return faultPathDir
+	}
+	if preferFull && devFullOK && os.Symlink("/dev/full", tmp) == nil {
+		return faultTmpFull
+	}
+	if os.Mkdir(tmp, 0o755) != nil {
+		return ""
+	}
+	return faultTmpDir
+}
+
+func clearObstruction(path, mode string) {
+	switch mode {
+	case faultPathDir:
+		os.Remove(path)
+		os.Remove(path + "~") // Save wrote the temporary file before its rename failed
+	case faultTmpDir, faultTmpFull:
+		os.Remove(path + "~")
+	}
+}
+
+// probeObstructions verifies on a scratch wallet that each obstruction really makes
+// WalletData.Save return an error (leaving the file untouched) and that saving works again
+// once it is removed.  Returns "" or the reason why saves cannot be made to fail.
+func probeObstructions(dir string) string {
+	os.MkdirAll(dir, 0o755)
+	defer os.RemoveAll(dir)
+	try := func(name string, exists, full bool) string {
+		p := filepath.Join(dir, name)
+		w := account.NewWalletData()
+		if exists {
+			if err := w.Save(p); err != nil {
+				return "plain save failed: " + err.Error()
+			}
+		}
+		before := readFile(p)
+		w.Extra = "x"
+		mode := obstructAt(p, full)
+		if mode == "" {
+			return "obstruction could not be created"
+		}
+		err := w.Save(p)
+		clearObstruction(p, mode)
+		if err == nil {
+			return mode + ": Save succeeded under the obstruction"
+		}
+		if exists && !bytes.Equal(before, readFile(p)) {
+			return mode + ": the failed Save changed the wallet file"
+		}
+		if fileExists(p + "~") {
+			return mode + ": obstruction not removed"
+		}
+		if err := w.Save(p); err != nil {
+			return mode + ": Save still fails after the obstruction is removed: " + err.Error()
+		}
+		return ""
+	}
+	if why := try("dir.dat", true, false); why != "" {
+		return why
+	}
+	if why := try("new.dat", false, false); why != "" {
+		return why
+	}
+	devFullOK = true
+	if why := try("full.dat", true, true); why != "" || !fileExists("/dev/full") {
+		devFullOK = false // optional mode: fall back to the directory obstruction
+	}
+	return ""
+}
+
+// snap is what the live wallet shows without decryption.
+type snap struct {
+	num        int
+	metas      []*account.AccountMetadata
+	def        string
+	scrypt     keypair.ScryptParam
+	probeLabel string // label the obstructed op tries to introduce …
+	probeAddr  string // … and the account it resolves to ("" = none)
+}
+
+func (h *hist) snapshot(probeLabel string) *snap {
+	c := h.cli
+	sn := &snap{num: c.GetAccountNum(), probeLabel: probeLabel}
+	for i := 1; i <= 64; i++ {
+		m := c.GetAccountMetadataByIndex(i)
+		if m == nil {
+			break
+		}
+		m.Key = append([]byte{}, m.Key...) // the metadata aliases the live record's slices
+		m.Salt = append([]byte{}, m.Salt...)
+		sn.metas = append(sn.metas, m)
+	}
+	if d := c.GetDefaultAccountMetadata(); d != nil {
+		sn.def = d.Address
+	}
+	if p := c.GetWalletData().Scrypt; p != nil {
+		sn.scrypt = *p
+	}
+	if m := c.GetAccountMetadataByLabel(probeLabel); m != nil {
+		sn.probeAddr = m.Address
+	}
+	return sn
+}
+
+// diffSnap names the first difference outside the key ciphertext and lists the indices whose
+// ciphertext differs (whether that matters is decided by decryption).
+func diffSnap(a, b *snap) (what string, cipher []int) {
+	switch {
+	case a.num != b.num:
+		return "account-count", nil
+	case len(a.metas) != len(b.metas):
+		return "account-list", nil
+	case a.def != b.def:
+		return "default-account", nil
+	case a.scrypt != b.scrypt:
+		return "scrypt-parameters", nil
+	case a.probeAddr != b.probeAddr:
+		return "label-index", nil
+	}
+	for i, x := range a.metas {
+		y := b.metas[i]
+		switch {
+		case x.Address != y.Address:
+			return "order", nil
+		case x.Label != y.Label:
+			return "label", nil
+		case x.IsDefault != y.IsDefault:
+			return "default-flag", nil
+		case x.SigSch != y.SigSch:
+			return "sig-scheme", nil
+		case x.KeyType != y.KeyType || x.Curve != y.Curve:
+			return "key-type", nil
+		case x.PubKey != y.PubKey:
+			return "pubkey", nil
+		}
+		if !bytes.Equal(x.Key, y.Key) || !bytes.Equal(x.Salt, y.Salt) || x.EncAlg != y.EncAlg || x.Hash != y.Hash {
+			cipher = append(cipher, i)
+		}
+	}
+	return "", cipher
+}
+
+// pend is an op that returned an error while saves were obstructed; judged again on a fresh
+// client after the next successful save.
+type pend struct {
+	op     string
+	addr   string // touched account ("" for NewAccount)
+	newPwd []byte // ChangePassword: the password of the failed change
+}
+
+// guarded runs one wallet call, with probability pct% while the wallet's save path is obstructed.
+func (h *hist) guarded(pct int, probeLabel string, f func() error) error {
+	h.fault = ""
+	if h.frng.Chance(pct) {
+		h.snap = h.snapshot(probeLabel)
+		h.fault = obstructAt(h.path, h.frng.Bool())
+		if h.fault == "" {
+			h.count("info_obstruction_not_created")
+		}
+	}
+	defer clearObstruction(h.path, h.fault)
+	return f()
+}
+
+// opensOnlyWithCurrent: account i of client c opens with the model's current password (to the
+// model's key) and, when given, refuses newPwd.  Returns the failed clause or "".
+func (h *hist) opensOnlyWithCurrent(c *account.ClientImpl, i int, newPwd []byte, tag string) (string, string) {
+	a := h.model[i]
+	pwd, _ := hex.DecodeString(a.Pwd)
+	acc, err := c.GetAccountByAddress(a.Addr, pwd)
+	if err != nil || acc == nil {
+		return "old-password-rejected", fmt.Sprintf("account %s no longer opens with its current password %s: %v", a.Addr, a.Pwd, err)
+	}
+	if !bytes.Equal(keypair.SerializePrivateKey(acc.PrivateKey), a.priv) {
+		return "different-key", fmt.Sprintf("account %s decrypts to a different private key", a.Addr)
+	}
+	h.count("failed_save_" + tag + "_current_password_opens")
+	if newPwd != nil && hex.EncodeToString(newPwd) != a.Pwd {
+		if acc, err := c.GetAccountByAddress(a.Addr, newPwd); err == nil && acc != nil {
+			return "new-password-accepted", fmt.Sprintf("account %s (current password %s) opens with %x, the password of the change that was reported as failed", a.Addr, a.Pwd, newPwd)
+		}
+		h.count("failed_save_" + tag + "_new_password_rejected")
+	}
+	return "", ""
+}
+
+// afterFault judges an op that ran under an obstructed save.
+func (h *hist) afterFault(op, short string, opErr error, target string, newPwd []byte) *viol {
+	h.count("faulted_op_" + short)
+	h.count("fault_mode_" + h.fault)
+	what, cipher := diffSnap(h.snap, h.snapshot(h.snap.probeLabel))
+	if opErr == nil {
+		// nothing can have been saved: the op may only report success if it had nothing to save
+		if what != "" || len(cipher) > 0 {
+			if what == "" {
+				what = "ciphertext"
+			}
+			return &viol{"failed-save:unsaved-change-reported-ok:" + op + ":" + what, fmt.Sprintf("%s returned nil while no save could succeed (%s), yet the live wallet changed (%s): the file cannot hold what the live wallet holds", op, h.fault, what)}
+		}
+		h.count("faulted_op_" + short + "_nothing_to_save")
+		return nil
+	}
+	h.count("faulted_op_" + short + "_error")
+	if what != "" {
+		return &viol{"failed-save:live-wallet-changed:" + op + ":" + what, fmt.Sprintf("%s returned an error (%v) while saves were obstructed (%s) but the live wallet differs from before the call: %s", op, opErr, h.fault, what)}
+	}
+	changed := map[int]bool{}
+	for _, i := range cipher {
+		changed[i] = true
+	}
+	for i, a := range h.model {
+		touched := op == "ChangePassword" && a.Addr == target
+		if !(h.full || changed[i] || touched) {
+			continue
+		}
+		var np []byte
+		if touched {
+			np = newPwd
+		}
+		if w, msg := h.opensOnlyWithCurrent(h.cli, i, np, "live"); w != "" {
+			return &viol{"failed-save:live-wallet-changed:" + op + ":" + w, fmt.Sprintf("%s returned an error (%v) while saves were obstructed (%s) but in the live wallet %s", op, opErr, h.fault, msg)}
+		}
+		if changed[i] {
+			h.count("info_failed_save_ciphertext_replaced_same_password")
+		}
+	}
+	h.count("failed_save_live_unchanged")
+	h.pending = append(h.pending, pend{op: op, addr: target, newPwd: newPwd})
+	return nil
+}
+
+// pendingCheck: a save has succeeded since the failed ones; a fresh client on the file must
+// show the model (which the failed ops did not change).
+func (h *hist) pendingCheck() *viol {
+	p := h.pending
+	h.pending = nil
+	key := "failed-save:reloaded-wallet-changed:" + p[0].op + ":"
+	fresh, err := account.NewClientImpl(h.path)
+	if err != nil {
+		return &viol{key + "open-failed", fmt.Sprintf("the wallet saved after a failed %s does not open: %v", p[0].op, err)}
+	}
+	h.count("failed_save_reload_checked")
+	if v := h.compareMeta(fresh, "reloaded"); v != nil {
+		return &viol{key + strings.TrimPrefix(v.key, "reloaded:"), fmt.Sprintf("first successful save after %s failed under an obstructed save: %s", p[0].op, v.what)}
+	}
+	done := map[string]bool{}
+	for _, e := range p {
+		i := h.find(e.addr)
+		if i < 0 {
+			continue
+		}
+		key := "failed-save:reloaded-wallet-changed:" + e.op + ":"
+		if !metaEq(fresh.GetAccountMetadataByIndex(i+1), h.cli.GetAccountMetadataByIndex(i+1)) {
+			return &viol{key + "differs-from-live", fmt.Sprintf("account %s touched by the failed %s: metadata of the reloaded client differs from the live client", e.addr, e.op)}
+		}
+		id := e.addr + "/" + hex.EncodeToString(e.newPwd)
+		if !(h.full || e.op == "ChangePassword") || done[id] {
+			continue
+		}
+		done[id] = true
+		if w, msg := h.opensOnlyWithCurrent(fresh, i, e.newPwd, "reloaded"); w != "" {
+			return &viol{key + w, fmt.Sprintf("%s returned an error while saves were obstructed; after the next successful save and a reload %s", e.op, msg)}
+		}
+	}
+	return nil
+}
+
 // step performs one seeded op; returns a violation or nil.
 func (h *hist) step(n int) *viol {
 	rng := h.rng
@@ -353,6 +668,9 @@ func (h *hist) step(n int) *viol {
 	rec := opRec{N: n}
 	var opErr error
 	mustFailUnchanged := false
+	h.fault = ""
+	short, target := "", "" // counter name of the op kind; address of the account the op touches
+	var newPwd []byte       // ChangePassword: the password the op tries to set
 	pickAcc := func() int { return rng.Intn(len(h.model)) }
 	kind := rng.Intn(100)
 	if len(h.model) == 0 {
@@ -374,7 +692,9 @@ func (h *hist) step(n int) *viol {
 		rec.Op = "NewAccount"
 		rec.Args = fmt.Sprintf("label=%q key=%s scheme=%s pwd=%x", label, ks.name, sc.Name(), pwd)
 		h.pwds[hex.EncodeToString(pwd)] = true
-		acc, err := h.cli.NewAccount(label, ks.kt, ks.curve, sc, pwd)
+		short = "new"
+		var acc *account.Account
+		err := h.guarded(18, label, func() (e error) { acc, e = h.cli.NewAccount(label, ks.kt, ks.curve, sc, pwd); return })
 		opErr = err
 		dup := h.labelTaken(label)
 		okScheme := compatible(ks.alg, sc)
@@ -395,6 +715,8 @@ func (h *hist) step(n int) *viol {
 			h.count("op_new_duplicate_label_rejected")
 		case !okScheme:
 			h.count("op_new_bad_scheme_rejected")
+		case h.fault != "":
+			h.count("faulted_op_new_save_failed")
 		default:
 			return &viol{"newaccount:rejected", fmt.Sprintf("NewAccount(%s) failed: %v", rec.Args, err)}
 		}
@@ -419,7 +741,8 @@ func (h *hist) step(n int) *viol {
 		if h.labelTaken(want) {
 			want += "_1"
 		}
-		err := h.cli.ImportAccount(&meta)
+		short, target = "import", meta.Address
+		err := h.guarded(35, want, func() error { return h.cli.ImportAccount(&meta) })
 		opErr = err
 		switch {
 		case err == nil:
@@ -434,6 +757,8 @@ func (h *hist) step(n int) *viol {
 				PubKey: meta.PubKey, IsDefault: len(h.model) == 0, Pwd: hex.EncodeToString(d.pwd), priv: d.priv, pub: d.pub})
 		case h.labelTaken(want):
 			h.count("op_import_label_and_rename_taken_rejected")
+		case h.fault != "":
+			h.count("faulted_op_import_save_failed")
 		default:
 			return &viol{"import:rejected", fmt.Sprintf("ImportAccount(%s) failed: %v", rec.Args, err)}
 		}
@@ -448,7 +773,13 @@ func (h *hist) step(n int) *viol {
 		}
 		rec.Op = "DeleteAccount"
 		rec.Args = fmt.Sprintf("addr=%s pwd=%x (wrong=%v, default=%v)", a.Addr, pwd, wrongPwd, a.IsDefault)
-		acc, err := h.cli.DeleteAccount(a.Addr, pwd)
+		short, target = "delete", a.Addr
+		var acc *account.Account
+		pct := 8 // the fault decisions concentrate on calls that get as far as the save
+		if !wrongPwd && !a.IsDefault {
+			pct = 50
+		}
+		err := h.guarded(pct, "", func() (e error) { acc, e = h.cli.DeleteAccount(a.Addr, pwd); return })
 		opErr = err
 		switch {
 		case err == nil && acc != nil:
@@ -469,11 +800,14 @@ func (h *hist) step(n int) *viol {
 			h.count("op_delete_default_rejected")
 		case wrongPwd:
 			h.count("op_delete_wrong_pwd_rejected")
+		case h.fault != "":
+			h.count("faulted_op_delete_save_failed")
 		default:
 			return &viol{"delete:current-password-rejected", fmt.Sprintf("DeleteAccount(%s) with the current password failed: %v", a.Addr, err)}
 		}
 	case kind < 54: // ---------------------------------------------- SetDefaultAccount
 		rec.Op = "SetDefaultAccount"
+		short = "setdefault"
 		if rng.Chance(15) {
 			addr := "AUnknownAddressxxxxxxxxxxxxxxxxxxx"
 			rec.Args = "addr=" + addr
@@ -487,7 +821,16 @@ func (h *hist) step(n int) *viol {
 		i := pickAcc()
 		a := h.model[i]
 		rec.Args = "addr=" + a.Addr
-		opErr = h.cli.SetDefaultAccount(a.Addr)
+		target = a.Addr
+		pct := 8
+		if !a.IsDefault {
+			pct = 40
+		}
+		opErr = h.guarded(pct, "", func() error { return h.cli.SetDefaultAccount(a.Addr) })
+		if opErr != nil && h.fault != "" && !a.IsDefault {
+			h.count("faulted_op_setdefault_save_failed")
+			break
+		}
 		if opErr != nil {
 			return &viol{"setdefault:rejected", fmt.Sprintf("SetDefaultAccount(%s) failed: %v", a.Addr, opErr)}
 		}
@@ -515,7 +858,12 @@ func (h *hist) step(n int) *viol {
 				takenByOther = true
 			}
 		}
-		opErr = h.cli.SetLabel(a.Addr, label)
+		short, target = "setlabel", a.Addr
+		pct := 8
+		if !takenByOther && label != a.Label {
+			pct = 22
+		}
+		opErr = h.guarded(pct, label, func() error { return h.cli.SetLabel(a.Addr, label) })
 		switch {
 		case opErr == nil:
 			if takenByOther {
@@ -534,6 +882,8 @@ func (h *hist) step(n int) *viol {
 			h.count("op_setlabel_duplicate_rejected")
 		case label == a.Label:
 			h.count("op_setlabel_same_rejected")
+		case h.fault != "" && strings.HasPrefix(opErr.Error(), "save error"):
+			h.count("faulted_op_setlabel_save_failed")
 		case label == "":
 			h.count("info_setlabel_empty_rejected") // the live client remembers one empty label as "in use"; no state change, so not a violation of the statement
 		default:
@@ -573,7 +923,12 @@ func (h *hist) step(n int) *viol {
 		h.pwds[hex.EncodeToString(nw)] = true
 		rec.Op = "ChangePassword"
 		rec.Args = fmt.Sprintf("addr=%s old=%x new=%x (wrongOld=%v)", a.Addr, old, nw, wrongOld)
-		opErr = h.cli.ChangePassword(a.Addr, old, nw)
+		short, target, newPwd = "changepwd", a.Addr, nw
+		pct := 8
+		if !wrongOld && !bytes.Equal(old, nw) {
+			pct = 25
+		}
+		opErr = h.guarded(pct, "", func() error { return h.cli.ChangePassword(a.Addr, old, nw) })
 		same := bytes.Equal(old, nw)
 		switch {
 		case same:
@@ -591,6 +946,8 @@ func (h *hist) step(n int) *viol {
 			// a former password that is now current again is no longer "wrong"
 		case wrongOld:
 			h.count("op_changepwd_wrong_old_rejected")
+		case h.fault != "":
+			h.count("faulted_op_changepwd_save_failed")
 		default:
 			return &viol{"changepwd:current-password-rejected", fmt.Sprintf("ChangePassword(%s) with the current password failed: %v", a.Addr, opErr)}
 		}
@@ -607,8 +964,13 @@ func (h *hist) step(n int) *viol {
 		}
 		rec.Op = "ChangeSigScheme"
 		rec.Args = fmt.Sprintf("addr=%s scheme=%s (key %s)", a.Addr, sc.Name(), a.KeyType)
-		opErr = h.cli.ChangeSigScheme(a.Addr, sc)
+		short, target = "changesig", a.Addr
 		ok := compatible(a.KeyType, sc)
+		pct := 8
+		if ok {
+			pct = 22
+		}
+		opErr = h.guarded(pct, "", func() error { return h.cli.ChangeSigScheme(a.Addr, sc) })
 		switch {
 		case opErr == nil:
 			if !ok {
@@ -618,6 +980,8 @@ func (h *hist) step(n int) *viol {
 			a.SigSch = sc.Name()
 		case !ok:
 			h.count("op_changesig_incompatible_rejected")
+		case h.fault != "":
+			h.count("faulted_op_changesig_save_failed")
 		default:
 			return &viol{"changesig:rejected", fmt.Sprintf("ChangeSigScheme(%s,%s) failed: %v", a.Addr, sc.Name(), opErr)}
 		}
@@ -631,22 +995,64 @@ func (h *hist) step(n int) *viol {
 	} else {
 		rec.Result = "ok"
 	}
+	rec.Fault = h.fault
 	h.log = append(h.log, rec)
+	after := readFile(h.path)
 	if mustFailUnchanged {
-		if !bytes.Equal(before, readFile(h.path)) {
+		if !bytes.Equal(before, after) {
 			return &viol{"failed-op:file-changed:" + rec.Op, fmt.Sprintf("%s returned an error but the wallet file changed", rec.Op)}
 		}
 		h.count("failed_op_file_unchanged")
+	}
+	// an op that ran while saves were obstructed: a reported failure leaves the live wallet as it was
+	if h.fault != "" {
+		if v := h.afterFault(rec.Op, short, opErr, target, newPwd); v != nil {
+			return v
+		}
 	}
 	// live client vs model after every op (no decryption involved)
 	if v := h.compareMeta(h.cli, "live"); v != nil {
 		return v
 	}
+	// the first successful save after failed ones: what the file now holds is still the model
+	if len(h.pending) > 0 && opErr == nil && !bytes.Equal(before, after) {
+		return h.pendingCheck()
+	}
 	return nil
 }
 
+// flushPending forces a save that changes nothing (ChangeSigScheme to the scheme the account
+// already has) so that ops which failed under an obstruction are judged on the saved file too.
+func (h *hist) flushPending(n int) *viol {
+	if len(h.pending) == 0 {
+		return nil
+	}
+	if len(h.model) == 0 {
+		h.pending = nil
+		h.count("info_failed_save_on_wallet_left_empty")
+		return nil
+	}
+	a := h.model[h.frng.Intn(len(h.model))]
+	sc, err := s.GetScheme(a.SigSch)
+	if err != nil {
+		h.pending = nil
+		return nil
+	}
+	err = h.cli.ChangeSigScheme(a.Addr, sc)
+	rec := opRec{N: n, Op: "ChangeSigScheme", Args: fmt.Sprintf("addr=%s scheme=%s (unchanged scheme: forces a save)", a.Addr, a.SigSch), Result: "ok"}
+	if err != nil {
+		rec.Result = "error: " + err.Error()
+	}
+	h.log = append(h.log, rec)
+	if err != nil {
+		return &viol{"changesig:rejected", fmt.Sprintf("ChangeSigScheme(%s,%s) to the account's own scheme failed: %v", a.Addr, a.SigSch, err)}
+	}
+	h.count("failed_save_flushed_at_end")
+	return h.pendingCheck()
+}
+
 func runHistory(r *vf.Run, idx int, rng *vf.RNG, base string, donors []*donor, full bool, count func(string)) {
-	h := &hist{idx: idx, rng: rng, r: r, donors: donors, full: full, pwds: map[string]bool{}, count: count}
+	h := &hist{idx: idx, rng: rng, frng: rng.Sub(0xFA17), r: r, donors: donors, full: full, pwds: map[string]bool{}, count: count}
 	h.dir = filepath.Join(base, fmt.Sprintf("h%d", idx))
 	os.MkdirAll(h.dir, 0o755)
 	h.path = filepath.Join(h.dir, "wallet.dat")
@@ -679,6 +1085,12 @@ func runHistory(r *vf.Run, idx int, rng *vf.RNG, base string, donors []*donor, f
 		}
 	}
 	if v == nil {
+		if p := vf.Catch(func() { v = h.flushPending(nops) }); p != nil {
+			v = &viol{"panic:op", fmt.Sprint(p)}
+		}
+		where = "forced save after the last op"
+	}
+	if v == nil {
 		if p := vf.Catch(func() { _, v = h.reloadCheck(true) }); p != nil {
 			v = &viol{"panic:reload", fmt.Sprint(p)}
 		}
@@ -692,6 +1104,9 @@ func runHistory(r *vf.Run, idx int, rng *vf.RNG, base string, donors []*donor, f
 			c := 'k'
 			if o.Result != "ok" {
 				c = 'e'
+			}
+			if o.Fault != "" {
+				c = 'f' // ran while saves were obstructed
 			}
 			if len(o.Op) > 8 {
 				fp += o.Op[:1] + o.Op[6:8] + string(c)
@@ -713,12 +1128,22 @@ func runHistory(r *vf.Run, idx int, rng *vf.RNG, base string, donors []*donor, f
 
 func main() {
 	r := vf.NewRun("C38", "exploration",
-		"seeded histories of 9–15 wallet operations (NewAccount over 6 key types, ImportAccount of donor accounts from other wallets, DeleteAccount, SetDefaultAccount, SetLabel from a 10-label alphabet incl. empty and x_1 names, ChangePassword with right/former/other/random old password, ChangeSigScheme compatible/incompatible) on at most 4 accounts, through account.ClientImpl on a real wallet file with the wallet's own scrypt parameters; live-vs-model check after every op, reload check every 4–6 ops and at the end; distinct by (history, op kinds with outcomes, final account count)")
+		"seeded histories of 9–15 wallet operations (NewAccount over 6 key types, ImportAccount of donor accounts from other wallets, DeleteAccount, SetDefaultAccount, SetLabel from a 10-label alphabet incl. empty and x_1 names, ChangePassword with right/former/other/random old password, ChangeSigScheme compatible/incompatible) on at most 4 accounts, through account.ClientImpl on a real wallet file with the wallet's own scrypt parameters; 8–50% of the calls (per op kind, higher for calls whose arguments get as far as the save; separate seeded stream) run while the save path is obstructed (directory at <wallet>~, symlink <wallet>~ -> /dev/full, directory at <wallet> before the first save) so that the save inside the op fails and its rollback runs; live-vs-model check after every op, live-vs-before check after every op under an obstructed save, reload check every 4–6 ops, after the first successful save that follows a failed one, and at the end; distinct by (history, op kinds with outcomes incl. obstructed, final account count)")
 	rng := vf.NewRNG(vf.Seed())
 	base := vf.Scratch("c38")
 	defer os.RemoveAll(base)
 	nHist := vf.N(40, 320)
 	workers := 12
+	if why := probeObstructions(filepath.Join(base, "probe")); why != "" {
+		r.Inconclusive("wallet saves cannot be made to fail from the harness: " + why)
+		os.RemoveAll(base)
+		r.Finish()
+	}
+	if devFullOK {
+		r.Count("obstruction_modes_verified_3")
+	} else {
+		r.Count("obstruction_modes_verified_2_no_dev_full")
+	}
 
 	var mu sync.Mutex
 	counts := map[string]int64{}
@@ -767,10 +1192,30 @@ func main() {
 		"decrypt_via_by-index", "decrypt_via_default", "probe_sign_verify_ok", "continue_on_reloaded_client", "failed_op_file_unchanged"} {
 		r.Require(c, 1)
 	}
+	// save-path fault injection: every op kind ran into a failing save, and the checks behind it ran
+	var saveFailed int64
+	for _, k := range []string{"new", "import", "delete", "setdefault", "setlabel", "changepwd", "changesig"} {
+		r.Require("faulted_op_"+k, 2)
+		r.Require("faulted_op_"+k+"_error", 1)
+		r.Require("faulted_op_"+k+"_save_failed", 1)
+		saveFailed += counts["faulted_op_"+k+"_save_failed"]
+	}
+	r.Add("faulted_op_save_failed_total", saveFailed)
+	r.Require("faulted_op_save_failed_total", int64(vf.N(25, 200)))
+	for _, c := range []string{"fault_mode_" + faultTmpDir, "fault_mode_" + faultPathDir, "failed_save_live_unchanged", "failed_save_reload_checked",
+		"failed_save_live_current_password_opens", "failed_save_live_new_password_rejected",
+		"failed_save_reloaded_current_password_opens", "failed_save_reloaded_new_password_rejected"} {
+		r.Require(c, 1)
+	}
+	if devFullOK {
+		r.Require("fault_mode_"+faultTmpFull, 1)
+	}
 	r.Assume("passwords are non-empty (NewAccount rejects an empty password and the CLI never passes one)")
 	r.Assume("ImportAccount is only issued for an address that is not in the wallet (cmd/account_cmd.go checks GetAccountMetadataByAddress first); the wallet itself does not reject a duplicate address")
 	r.Assume("whether an op is accepted follows the API's own result, except where the statement decides it: a key may only be opened (ChangePassword, DeleteAccount, GetAccount*) with the current password, duplicate non-empty labels and scheme/key-type mismatches in ChangeSigScheme must be refused")
+	r.Assume("a save fails the way the harness can make it fail without hooks: the temporary file <wallet>~ cannot be opened (a directory is in its place) or written (ENOSPC from /dev/full), or the rename onto <wallet> fails (a directory is in its place, first save only); a failure of the rename over an existing wallet file is not produced")
 	if !vf.Thorough() {
+		r.Assume("quick tier, op that failed under an obstructed save: accounts whose ciphertext, salt and scrypt parameters are byte-identical to before the call are taken to open with the same passwords as before; decrypted are the account of a failed ChangePassword (current password must open, password of the failed change must not) and any account whose ciphertext changed; thorough decrypts every account")
 		r.Assume("quick tier: per account the refused-password set is {former passwords of the account, one other password of the history, one random}; thorough uses every other password of the history and 3 random ones")
 	}
 	os.RemoveAll(base)
